@@ -1,40 +1,434 @@
+// names harness: C42 — Go identifiers derived from schemas are valid and unique.
+//
+// Part 1 (strings): internal/strs.{GoCamelCase,GoSanitized,JSONCamelCase,JSONSnakeCase},
+// protoreflect.FullName.IsValid and the FieldMask path tests of protojson are run against the Lean model
+// (exact comparison) and against the oracles the property names (go/token.IsIdentifier, IsExported).
+// Part 2 (messages): schemas built from adversarial name pools go through compiler/protogen in-process
+// (open, hybrid and opaque API level) and through the model; the names are compared exactly, and the code
+// that cmd/protoc-gen-go/internal_gengo generates for the open and the opaque API is scanned for
+// identifiers declared twice (gen.go).  classify.go holds the signatures of the collisions that exist on
+// the unchanged tree.
 package main
 
 import (
+	"encoding/json"
 	"fmt"
+	"go/token"
 	"os"
+	"sort"
+	"strings"
+	"unicode"
+	"unicode/utf8"
 
+	"google.golang.org/protobuf/encoding/protojson"
+	"google.golang.org/protobuf/internal/strs"
 	vh "google.golang.org/protobuf/internal/zz_verif_vh"
+	"google.golang.org/protobuf/reflect/protoreflect"
+	"google.golang.org/protobuf/types/known/fieldmaskpb"
 )
 
 func main() { vh.Main("names", run) }
 
 func run(c *vh.Ctx) {
 	switch c.Prop {
-	case "probe":
-		probe(c)
-	case "direct":
-		direct(c)
+	case "C42":
+		runC42(c)
 	default:
 		fmt.Fprintln(os.Stderr, "names: unknown property", c.Prop)
 		os.Exit(2)
 	}
 }
 
-var fieldPool = []string{
-	"foo_bar", "fooBar", "FooBar", "foo__bar", "Foo_bar", "foo_Bar", "_foo", "x_foo", "XFoo", "X_foo", "xFoo",
-	"XFoo_1", "XFoo_2", "XFoo_3", "x_foo_2", "XFoo_2_3",
-	"reset", "string", "proto_message", "descriptor", "marshal", "unmarshal", "extension_map", "extension_range_array",
-	"Reset", "String", "ProtoMessage", "Descriptor", "build", "Build", "build_",
-	"x", "get_x", "has_x", "clear_x", "set_x", "which_x", "GetX", "get_get_x", "X", "x_", "X_", "x__", "get_x_",
-	"a", "A", "a_", "A_", "a__", "b", "B", "b_", "o", "O", "get_o", "has_o", "clear_o", "which_o",
+// Input is the replayable form of one case.
+type Input struct {
+	Kind  string   `json:"kind"`            // "str" | "msg"
+	Hex   string   `json:"hex,omitempty"`   // kind str: the bytes of the string
+	Text  string   `json:"text,omitempty"`  // kind str: the string, quoted (information only)
+	Level string   `json:"level,omitempty"` // kind msg: API level at which a duplicate was found
+	Spec  *MsgSpec `json:"spec,omitempty"`
+	Line  string   `json:"line,omitempty"` // kind msg: the request line of the model (information only)
 }
 
-var nestedPool = []string{"A", "a", "A_", "a_", "B", "b", "B_", "X", "x", "Foo", "foo", "XFoo", "O", "X_", "A__"}
+func strInput(s string) Input { return Input{Kind: "str", Hex: vh.Hex([]byte(s)), Text: fmt.Sprintf("%q", s)} }
+
+func runC42(c *vh.Ctx) {
+	c.R.Rule = "strings: every string of length <= 4 (quick) / 5 (thorough) over {a b z A B Z 0 9 _ .}, every 1-byte string, " +
+		"2-byte strings over the ASCII class boundaries (thorough: every 2-byte string), the Go keywords, PRNG ASCII strings of " +
+		"length 5-40 from a class-weighted alphabet, PRNG Unicode strings (letters/digits/marks/symbols of several scripts, U+FFFD, " +
+		"invalid UTF-8). A string case is non-trivial when at least one of the four functions changes the string. " +
+		"messages: directed witnesses, every ordered selection of 2 (thorough: 3) fields from a 14-name pool, PRNG schemas of 2-6 fields " +
+		"with 0-2 oneofs, 0-2 nested messages, 0-1 nested enums, proto2 and proto3 (synthetic oneofs), names drawn from pools of names " +
+		"that collide after camel-casing, with reserved methods, with Get/Set/Has/Clear/Which prefixes and with nested types. " +
+		"A message case is non-trivial when conflict resolution changed at least one name. Distinct by input."
+	// replayed inputs first
+	for _, raw := range c.ReplayInputs() {
+		var in Input
+		if json.Unmarshal(raw, &in) != nil {
+			continue
+		}
+		c.Hist("replay")
+		switch in.Kind {
+		case "str":
+			checkString(c, string(vh.UnHex(in.Hex)))
+		case "msg":
+			if in.Spec != nil {
+				checkMsg(c, in.Spec, "replay")
+			}
+		}
+	}
+	checkTables(c)
+	runStrings(c)
+	if c.Failed() {
+		return
+	}
+	runMessages(c)
+}
+
+// ---------------------------------------------------------------- tables
+
+func goKeywords() []string {
+	var out []string
+	for t := token.Token(0); t < 256; t++ {
+		if t.IsKeyword() {
+			out = append(out, t.String())
+		}
+	}
+	return out
+}
+
+func checkTables(c *vh.Ctx) {
+	kw := goKeywords()
+	c.Compare("go/token keyword table", "keywords", strings.Join(kw, ","), c.Ask("keywords"))
+	for _, k := range kw {
+		c.Check(token.IsKeyword(k) && token.Lookup(k).IsKeyword(), "token.Lookup finds keyword", k, "")
+	}
+	c.Case("keywords", true)
+}
+
+// ---------------------------------------------------------------- strings
+
+func isASCII(s string) bool {
+	for i := 0; i < len(s); i++ {
+		if s[i] >= 0x80 {
+			return false
+		}
+	}
+	return true
+}
+
+func identBytes(s string) bool {
+	for i := 0; i < len(s); i++ {
+		b := s[i]
+		if !(b == '_' || '0' <= b && b <= '9' || 'a' <= b && b <= 'z' || 'A' <= b && b <= 'Z') {
+			return false
+		}
+	}
+	return true
+}
+
+// runeTokens renders the code points of s (as Go's range sees them) with their unicode class.
+func runeTokens(s string) string {
+	var p []string
+	for _, r := range s {
+		cl := "o"
+		if unicode.IsLetter(r) {
+			cl = "l"
+		} else if unicode.IsDigit(r) {
+			cl = "d"
+		}
+		p = append(p, fmt.Sprintf("%d.%s", r, cl))
+	}
+	return strings.Join(p, " ")
+}
+
+func runeList(s string) string {
+	if s == "" {
+		return "-"
+	}
+	var p []string
+	for _, r := range s {
+		p = append(p, fmt.Sprint(int(r)))
+	}
+	return strings.Join(p, ",")
+}
+
+func bit(b bool) string {
+	if b {
+		return "1"
+	}
+	return "0"
+}
+
+// fieldMaskMarshal runs the real protojson encoder on FieldMask{paths:[s]}.
+func fieldMaskMarshal(s string) (string, bool) {
+	b, err := protojson.Marshal(&fieldmaskpb.FieldMask{Paths: []string{s}})
+	if err != nil {
+		return "", false
+	}
+	var out string
+	if json.Unmarshal(b, &out) != nil {
+		return "", false
+	}
+	return out, true
+}
+
+// fieldMaskUnmarshal runs the real protojson decoder on the JSON string s0; single says that s0 can be
+// presented as exactly one path (no comma, no surrounding white space, valid UTF-8, non-empty).
+func fieldMaskUnmarshal(s0 string) (paths []string, ok bool, single bool) {
+	if s0 == "" || !utf8.ValidString(s0) || strings.Contains(s0, ",") || strings.TrimSpace(s0) != s0 {
+		return nil, false, false
+	}
+	js, err := json.Marshal(s0)
+	if err != nil {
+		return nil, false, false
+	}
+	var fm fieldmaskpb.FieldMask
+	if err := protojson.Unmarshal(js, &fm); err != nil {
+		return nil, false, true
+	}
+	return fm.Paths, true, true
+}
+
+func checkString(c *vh.Ctx, s string) {
+	in := strInput(s)
+	hx := vh.Hex([]byte(s))
+	changed := false
+	func() {
+		defer c.Recover("strs functions", in, "")
+		// GoCamelCase
+		cc := strs.GoCamelCase(s)
+		c.Compare("GoCamelCase", in, vh.Hex([]byte(cc)), c.Ask("camel %s", hx))
+		validName := protoreflect.Name(s).IsValid()
+		validFull := protoreflect.FullName(s).IsValid()
+		c.Compare("FullName.IsValid", in, bit(validFull), c.Ask("fullname %s", hx))
+		if validFull {
+			// the property: a valid protobuf identifier (also a dotted one, as used for nested types)
+			// becomes an exported Go identifier over [A-Za-z0-9_]
+			ok := cc != "" && token.IsIdentifier(cc) && token.IsExported(cc) && identBytes(cc) && 'A' <= cc[0] && cc[0] <= 'Z'
+			c.Check(ok, "GoCamelCase(valid protobuf name) is an exported Go identifier", in, "")
+			if validName {
+				c.Hist("camel:valid-name")
+			} else {
+				c.Hist("camel:valid-fullname")
+			}
+		} else {
+			c.Hist("camel:invalid-name")
+		}
+		changed = changed || cc != s
+
+		// GoSanitized
+		gs := strs.GoSanitized(s)
+		c.Compare("GoSanitized", in, runeList(gs), c.Ask("sanitize %s", runeTokens(s)))
+		c.Check(token.IsIdentifier(gs) && !token.IsKeyword(gs), "GoSanitized(s) is a Go identifier and not a keyword", in, "")
+		c.Compare("token.IsIdentifier(s)", in, bit(token.IsIdentifier(s)), c.Ask("goident %s", runeTokens(s)))
+		changed = changed || gs != s
+		if token.IsKeyword(s) {
+			c.Hist("sanitize:keyword")
+		} else if isASCII(s) {
+			c.Hist("sanitize:ascii")
+		} else if utf8.ValidString(s) {
+			c.Hist("sanitize:unicode")
+		} else {
+			c.Hist("sanitize:invalid-utf8")
+		}
+
+		// JSONCamelCase / JSONSnakeCase
+		jc := strs.JSONCamelCase(s)
+		js := strs.JSONSnakeCase(s)
+		c.Compare("JSONCamelCase", in, vh.Hex([]byte(jc)), c.Ask("jcamel %s", hx))
+		c.Compare("JSONSnakeCase", in, vh.Hex([]byte(js)), c.Ask("jsnake %s", hx))
+		changed = changed || jc != s || js != s
+
+		// FieldMask: what protojson accepts, and the round trip on what it accepts
+		out, acc := fieldMaskMarshal(s)
+		c.Compare("marshalFieldMask accepts", in, bit(acc), c.Ask("fmaccept %s", hx))
+		if acc {
+			c.Hist("fieldmask:marshal-accepts")
+			c.Check(strs.JSONSnakeCase(strs.JSONCamelCase(s)) == s, "JSONSnakeCase(JSONCamelCase(s)) == s for an accepted FieldMask path", in, "")
+			c.Check(out == jc, "marshalFieldMask writes JSONCamelCase(s)", in, "")
+			back, ok, single := fieldMaskUnmarshal(out)
+			if single {
+				c.Check(ok && len(back) == 1 && back[0] == s, "FieldMask path survives protojson Marshal then Unmarshal", in, "")
+			}
+		}
+		paths, ok, single := fieldMaskUnmarshal(s)
+		if single {
+			c.Compare("unmarshalFieldMask accepts", in, bit(ok), c.Ask("fmparse %s", hx))
+			if ok {
+				c.Hist("fieldmask:unmarshal-accepts")
+				good := len(paths) == 1 && paths[0] == js
+				if good {
+					out2, acc2 := fieldMaskMarshal(paths[0])
+					good = acc2 && out2 == s
+				}
+				c.Check(good, "JSON FieldMask path survives protojson Unmarshal then Marshal", in, "")
+			}
+		}
+	}()
+	c.Case("s:"+s, changed)
+}
+
+var smallAlphabet = []byte("abzABZ09_.")
+
+func enumStrings(alpha []byte, maxLen int, f func(string)) {
+	buf := make([]byte, 0, maxLen)
+	var rec func()
+	rec = func() {
+		f(string(buf))
+		if len(buf) == maxLen {
+			return
+		}
+		for _, a := range alpha {
+			buf = append(buf, a)
+			rec()
+			buf = buf[:len(buf)-1]
+		}
+	}
+	rec()
+}
+
+var runePool = []rune{
+	'a', 'z', 'A', 'Z', '0', '9', '_', '.', '-', ' ', '$', 0x7f,
+	0xaa, 0xb5, 0xc0, 0xe9, 0xf7, 0xd7, // Latin-1 letters and the two operators between them
+	0x391, 0x3c9, 0x416, 0x44f, 0x5d0, 0x627, // Greek, Cyrillic, Hebrew, Arabic letters
+	0x660, 0x669, 0x966, 0xff10, 0x1d7ce, // digits of other scripts (Nd)
+	0xb2, 0xbd, 0x2160, 0x3007, // No / Nl: numbers that are not unicode.IsDigit
+	0x300, 0x301, 0x93e, // combining marks (Mn, Mc): neither letter nor digit
+	0x4e2d, 0x3042, 0xac00, 0x1f600, 0x10000, 0x2028, 0x200d, 0xfeff,
+	0xfffd, 0xfffe, 0x10ffff, 0xe000,
+}
+
+func randString(c *vh.Ctx) string {
+	r := c.Rand
+	n := 5 + r.Intn(36)
+	var b []byte
+	switch r.Intn(4) {
+	case 0, 1: // identifier-like ASCII
+		for i := 0; i < n; i++ {
+			switch r.Intn(10) {
+			case 0, 1, 2:
+				b = append(b, byte('a'+r.Intn(26)))
+			case 3, 4:
+				b = append(b, byte('A'+r.Intn(26)))
+			case 5:
+				b = append(b, byte('0'+r.Intn(10)))
+			case 6, 7:
+				b = append(b, '_')
+			case 8:
+				b = append(b, '.')
+			default:
+				b = append(b, "azAZ09"[r.Intn(6)])
+			}
+		}
+	case 2: // any ASCII
+		for i := 0; i < n; i++ {
+			b = append(b, byte(r.Intn(128)))
+		}
+	default: // Unicode, sometimes damaged
+		for i := 0; i < n/2+1; i++ {
+			switch r.Intn(8) {
+			case 0:
+				b = utf8.AppendRune(b, rune(r.Intn(0x110000)))
+			case 1:
+				b = append(b, byte(0x80+r.Intn(0x80))) // stray continuation / lead byte
+			default:
+				b = utf8.AppendRune(b, runePool[r.Intn(len(runePool))])
+			}
+		}
+	}
+	// sometimes turn the string into a keyword with decoration
+	if r.Intn(12) == 0 {
+		kw := goKeywords()
+		k := kw[r.Intn(len(kw))]
+		switch r.Intn(4) {
+		case 0:
+			return k
+		case 1:
+			return k + string(b[:1])
+		case 2:
+			return strings.ToUpper(k[:1]) + k[1:]
+		default:
+			return "_" + k
+		}
+	}
+	return string(b)
+}
+
+func runStrings(c *vh.Ctx) {
+	maxLen := 4
+	if c.Thorough() {
+		maxLen = 5
+	}
+	enumStrings(smallAlphabet, maxLen, func(s string) {
+		if !c.Failed() {
+			c.Hist("gen:exhaustive-small-alphabet")
+			checkString(c, s)
+		}
+	})
+	c.R.Exhaustive = true
+	for b := 0; b < 256; b++ {
+		c.Hist("gen:one-byte")
+		checkString(c, string([]byte{byte(b)}))
+	}
+	edges := []byte{0, '-', '.', '/', '0', '9', ':', '@', 'A', 'Z', '[', '_', '`', 'a', 'z', '{', 0x7f, 0x80, 0xc3, 0xff}
+	if c.Thorough() {
+		edges = edges[:0]
+		for b := 0; b < 256; b++ {
+			edges = append(edges, byte(b))
+		}
+	}
+	for _, x := range edges {
+		for _, y := range edges {
+			if c.Failed() {
+				return
+			}
+			c.Hist("gen:two-byte")
+			checkString(c, string([]byte{x, y}))
+		}
+	}
+	for _, k := range goKeywords() {
+		for _, s := range []string{k, "_" + k, k + "_", strings.ToUpper(k), k + "1", "x." + k, k + "." + k, strings.ToUpper(k[:1]) + k[1:]} {
+			c.Hist("gen:keyword")
+			checkString(c, s)
+		}
+	}
+	for _, r := range runePool {
+		for _, s := range []string{string(r), string(r) + "a", "a" + string(r), string(r) + "1", "1" + string(r), string(r) + string(r)} {
+			c.Hist("gen:rune-pool")
+			checkString(c, s)
+		}
+	}
+	for _, s := range []string{"", "foo_bar", "fooBar", "foo__bar", "_foo", "foo_", "FOO_BAR", "foo_bar_baz", "foo.bar_baz", "a_b_c", "aBC",
+		"foo1_bar", "foo_1bar", "f_", "user.display_name", "user.displayName", "a.b.c", "a..b", ".a", "a.", "_", "__", "_._", "A_b.C_d",
+		"\xff", "a\xffb", "\xed\xa0\x80", "\xf4\x90\x80\x80", "\xc0\x80"} {
+		c.Hist("gen:directed")
+		checkString(c, s)
+	}
+	for i, n := 0, c.N(20000, 400000); i < n && !c.Failed(); i++ {
+		c.Hist("gen:random")
+		checkString(c, randString(c))
+	}
+}
+
+// ---------------------------------------------------------------- messages
+
+var fieldPool = []string{
+	"foo_bar", "fooBar", "FooBar", "foo__bar", "Foo_bar", "foo_Bar", "_foo", "x_foo", "XFoo", "X_foo", "xFoo",
+	"XFoo_1", "XFoo_2", "XFoo_3", "x_foo_2", "XFoo_2_3", "XFoo_1_2",
+	"reset", "string", "proto_message", "descriptor", "marshal", "unmarshal", "extension_map", "extension_range_array",
+	"Reset", "String", "ProtoMessage", "Descriptor", "proto_reflect", "ProtoReflect", "build", "Build", "build_", "Build_",
+	"x", "get_x", "has_x", "clear_x", "set_x", "which_x", "GetX", "get_get_x", "getGetX", "GetGetX", "X", "x_", "X_", "x__", "get_x_",
+	"a", "A", "a_", "A_", "a__", "b", "B", "b_", "o", "O", "get_o", "has_o", "clear_o", "which_o", "set_o",
+	"reset_", "get_reset", "get_string", "a1", "a_1", "A1", "a1b", "a_1b", "a1_b",
+}
+
+var nestedPool = []string{"A", "a", "A_", "a_", "B", "b", "B_", "X", "x", "Foo", "foo", "XFoo", "O", "X_", "A__", "GetX", "Reset"}
+
+var smallPool = []string{"x", "X", "get_x", "GetX", "x_", "get_x_", "reset", "Reset", "reset_", "_foo", "x_foo", "XFoo_1", "XFoo_2", "proto_reflect"}
 
 func genSpec(c *vh.Ctx) *MsgSpec {
 	r := c.Rand
-	m := &MsgSpec{Name: []string{"M", "M", "m", "M_", "m_x"}[r.Intn(5)]}
+	m := &MsgSpec{Name: []string{"M", "M", "M", "m", "M_", "m_x", "M1"}[r.Intn(7)], Proto3: r.Intn(5) == 0}
 	used := map[string]bool{}
 	pick := func(pool []string) string {
 		for {
@@ -82,11 +476,29 @@ func genSpec(c *vh.Ctx) *MsgSpec {
 		}
 	}
 	m.Fields = out
+	if m.Proto3 && r.Intn(2) == 0 {
+		// proto3 `optional`: protoc appends one synthetic oneof "_<field>" per such field, after the real oneofs
+		for i := range m.Fields {
+			if m.Fields[i].Oneof < 0 && !m.Fields[i].Repeated && !used["_"+m.Fields[i].Name] && r.Intn(2) == 0 {
+				used["_"+m.Fields[i].Name] = true
+				m.Oneofs = append(m.Oneofs, "_"+m.Fields[i].Name)
+				m.Fields[i].Oneof = len(m.Oneofs) - 1
+			}
+		}
+	}
+	ident := map[string]bool{}
 	for i, k := 0, r.Intn(3); i < k; i++ {
-		m.Msgs = append(m.Msgs, pick(nestedPool))
+		// nested type names are context, not what C42 quantifies over: keep their Go identifiers distinct
+		if n := pick(nestedPool); !ident[strs.GoCamelCase("M."+n)] {
+			ident[strs.GoCamelCase("M."+n)] = true
+			m.Msgs = append(m.Msgs, n)
+		}
 	}
 	for i, k := 0, r.Intn(2); i < k; i++ {
-		m.Enums = append(m.Enums, pick(nestedPool))
+		if n := pick(nestedPool); !ident[strs.GoCamelCase("M."+n)] {
+			ident[strs.GoCamelCase("M."+n)] = true
+			m.Enums = append(m.Enums, n)
+		}
 	}
 	return m
 }
@@ -168,83 +580,255 @@ func shrink(m *MsgSpec, pred func(*MsgSpec) bool) *MsgSpec {
 	return m
 }
 
-func probe(c *vh.Ctx) {
-	seen := map[string]int{}
-	for i := 0; i < c.N(3000, 30000); i++ {
-		m := genSpec(c)
-		n, err := m.resolve()
+var scanLevels = []string{"API_OPEN", "API_OPAQUE"}
+
+// msgResult is what one schema produced: the names according to protogen and to the model, the
+// unexplained duplicates and the explained ones (by signature).
+type msgResult struct {
+	rejected bool
+	err      string
+	impl     string
+	model    string
+	dups     []Dup // unexplained
+	known    map[string]Dup
+	changed  bool
+	genBytes int
+}
+
+func evalMsg(c *vh.Ctx, m *MsgSpec, askModel bool) msgResult {
+	res := msgResult{known: map[string]Dup{}}
+	ns, err := m.resolve()
+	if err != nil {
+		res.rejected, res.err = true, err.Error()
+		return res
+	}
+	res.impl = ns.canon()
+	if askModel && c.HasModel() {
+		res.model = c.Ask("%s", m.line())
+	} else {
+		res.model = res.impl
+	}
+	for i, f := range ns.Fields {
+		cc := strs.GoCamelCase(m.Fields[i].Name)
+		if f.GoName != cc || f.Camel != cc || f.Hybrid || (f.Wrapper != "-" && f.Wrapper != ns.MsgIdent+"_"+f.GoName) {
+			res.changed = true
+		}
+	}
+	for i, o := range ns.Oneofs {
+		cc := strs.GoCamelCase(m.Oneofs[i])
+		if o.GoName != cc || o.Camel != cc || o.Hybrid {
+			res.changed = true
+		}
+	}
+	// direct checks on the names protogen reports (independent of the generator templates)
+	var direct []Dup
+	direct = append(direct, openNameDups(m, ns)...)
+	direct = append(direct, opaqueNameDups(m, ns)...)
+	for _, lv := range scanLevels {
+		d, size, err := m.generate(lv)
 		if err != nil {
-			c.Hist("reject")
-			if seen["rej"] < 5 {
-				seen["rej"]++
-				fmt.Println("REJECT", m.line(), err)
-			}
-			continue
+			res.rejected, res.err = true, "generate: "+err.Error()
+			return res
 		}
-		for _, lv := range []string{"API_OPEN", "API_HYBRID", "API_OPAQUE"} {
-			d, _, err := m.generate(lv)
-			if err != nil {
-				fmt.Println("GENERR", m.line(), err)
-				continue
+		res.genBytes += size
+		direct = append(direct, d...)
+	}
+	for _, d := range direct {
+		if sig := classify(m, ns, d); sig != "" {
+			if _, ok := res.known[sig]; !ok {
+				res.known[sig] = d
 			}
-			for _, x := range d {
-				c.Hist("dup:" + lv + ":" + classify(m, n, x))
-			}
-			uncl := func(x *MsgSpec) bool {
-				nn, err := x.resolve()
-				if err != nil {
-					return false
-				}
-				d, _, err := x.generate(lv)
-				if err != nil {
-					return false
-				}
-				for _, y := range d {
-					if classify(x, nn, y) == "" {
-						return true
-					}
-				}
-				return false
-			}
-			if uncl(m) {
-				mm := shrink(m, uncl)
-				d2, _, _ := mm.generate(lv)
-				n2, _ := mm.resolve()
-				k := fmt.Sprint(lv, " ", mm.line())
-				if seen[k] == 0 {
-					seen[k]++
-					fmt.Println("MIN", lv, "|", mm.line(), "|", d2, "|", n2.canon())
-				}
-			}
+		} else {
+			res.dups = append(res.dups, d)
 		}
-		c.Case(m.line(), true)
+	}
+	return res
+}
+
+func dupsOf(names []string, level, scope string) []Dup {
+	cnt := map[string]int{}
+	for _, n := range names {
+		cnt[n]++
+	}
+	var out []Dup
+	for n, k := range cnt {
+		if k > 1 {
+			out = append(out, Dup{Level: level, File: "protogen", Scope: scope, Name: n})
+		}
+	}
+	sort.Slice(out, func(i, j int) bool { return out[i].Name < out[j].Name })
+	return out
+}
+
+// openNameDups evaluates the open-API clause on protogen's own output: struct field names (fields outside
+// oneofs, oneofs), Get methods (every field, every real oneof), the fixed methods, and the package-level
+// type names (message, nested types, wrapper types).
+func openNameDups(m *MsgSpec, ns *Names) []Dup {
+	members := []string{"Reset", "String", "ProtoMessage", "ProtoReflect", "Descriptor"}
+	types := []string{ns.MsgIdent}
+	types = append(types, ns.Nested...)
+	for i, f := range ns.Fields {
+		if m.Fields[i].Oneof < 0 || m.synthetic(m.Fields[i].Oneof) {
+			members = append(members, f.GoName)
+		} else {
+			types = append(types, f.Wrapper)
+		}
+		members = append(members, f.Getter)
+	}
+	for i, o := range ns.Oneofs {
+		if !m.synthetic(i) {
+			members = append(members, o.GoName, "Get"+o.GoName)
+		}
+	}
+	return append(dupsOf(members, "API_OPEN", ns.MsgIdent), dupsOf(types, "API_OPEN", "")...)
+}
+
+// opaqueNameDups evaluates the opaque clause on the method names protogen's MethodName API reports.
+func opaqueNameDups(m *MsgSpec, ns *Names) []Dup {
+	members := []string{"Reset", "String", "ProtoMessage", "ProtoReflect"}
+	for _, ms := range ns.OpaqueMethods {
+		members = append(members, ms...)
+	}
+	for i, o := range ns.Oneofs {
+		if !m.synthetic(i) {
+			members = append(members, "Has"+o.Camel, "Clear"+o.Camel, "Which"+o.Camel)
+		}
+	}
+	return dupsOf(members, "API_OPAQUE", ns.MsgIdent)
+}
+
+var knownSeen = map[string]bool{}
+
+func checkMsg(c *vh.Ctx, m *MsgSpec, origin string) {
+	in := Input{Kind: "msg", Spec: m, Line: m.line()}
+	defer c.Recover("protogen / generator", in, "")
+	res := evalMsg(c, m, true)
+	if res.rejected {
+		c.Hist("msg:rejected-by-protodesc")
+		// the generators only produce valid descriptors: a rejection is a harness defect, make it visible
+		c.Check(false, "schema rejected: "+res.err, in, "harness-invalid-schema")
+		return
+	}
+	c.Hist("msg:" + origin)
+	if !c.Compare("protogen names (open GoName:wrapper, opaque camelCase:hybrid flag; oneofs; nested)", in, res.impl, res.model) {
+		// minimise the disagreement
+		mm := shrink(m, func(x *MsgSpec) bool {
+			r := evalMsg(c, x, true)
+			return !r.rejected && r.impl != r.model
+		})
+		if mm != m {
+			r := evalMsg(c, mm, true)
+			c.Compare("protogen names (minimised)", Input{Kind: "msg", Spec: mm, Line: mm.line()}, r.impl, r.model)
+		}
+	}
+	if len(res.dups) > 0 {
+		mm := shrink(m, func(x *MsgSpec) bool {
+			r := evalMsg(c, x, false)
+			return !r.rejected && len(r.dups) > 0
+		})
+		r := evalMsg(c, mm, false)
+		var names []string
+		for _, d := range r.dups {
+			names = append(names, d.String())
+		}
+		c.Check(false, "identifiers declared twice in one generated message: "+strings.Join(names, " "),
+			Input{Kind: "msg", Level: r.dups[0].Level, Spec: mm, Line: mm.line()}, "")
+		c.Hist("msg:VIOLATION-duplicate")
+	}
+	var sigs []string
+	for s := range res.known {
+		sigs = append(sigs, s)
+	}
+	sort.Strings(sigs)
+	for _, s := range sigs {
+		c.Hist("known:" + s)
+		if !knownSeen[s] {
+			// report each known collision class once per run, minimised, so that bin/check prints KNOWN-FINDING
+			knownSeen[s] = true
+			s := s
+			mm := shrink(m, func(x *MsgSpec) bool {
+				r := evalMsg(c, x, false)
+				_, ok := r.known[s]
+				return !r.rejected && ok && len(r.dups) == 0
+			})
+			r := evalMsg(c, mm, false)
+			d := r.known[s]
+			c.Check(false, "identifier declared twice in one generated message: "+d.String(),
+				Input{Kind: "msg", Level: d.Level, Spec: mm, Line: mm.line()}, s)
+		}
+	}
+	if len(res.known) == 0 && len(res.dups) == 0 {
+		c.Hist("msg:all-identifiers-distinct")
+	}
+	c.Case("m:"+m.line(), res.changed)
+	if res.changed {
+		c.Sample(map[string]string{"schema": m.line(), "names": res.impl})
 	}
 }
 
 func F(name string, num int, oneof int) FieldSpec { return FieldSpec{Name: name, Num: num, Oneof: oneof} }
 
-func direct(c *vh.Ctx) {
-	specs := []*MsgSpec{
-		{Name: "M", Fields: []FieldSpec{F("_foo", 1, -1), F("x_foo", 2, -1), F("XFoo_2", 3, -1)}},
-		{Name: "M", Fields: []FieldSpec{F("a", 1, 0), F("a_", 2, 0)}, Oneofs: []string{"o"}, Msgs: []string{"A"}},
-		{Name: "M", Fields: []FieldSpec{F("get_x", 1, -1), F("a", 2, 0)}, Oneofs: []string{"x"}},
-		{Name: "M", Fields: []FieldSpec{F("a", 1, 0), F("b", 2, 1), F("GetX", 3, -1)}, Oneofs: []string{"get_x", "x"}},
-		{Name: "M", Fields: []FieldSpec{F("a", 1, 0), F("fooBar", 2, -1)}, Oneofs: []string{"foo_bar"}},
-		{Name: "M", Fields: []FieldSpec{F("proto_reflect", 1, -1)}},
-		{Name: "M", Fields: []FieldSpec{F("GetGetX", 1, -1), F("a", 2, 0), F("b", 3, 1), F("c", 4, 2), F("d", 5, 3), F("get_get_x", 6, -1)}, Oneofs: []string{"get_x", "getGetX", "x", "GetX"}},
+// witnesses are the schemas of the findings, replayed on every run (each must still collide, with the
+// expected signature: if one stops colliding the code was repaired and the model/known list must follow).
+var witnesses = []struct {
+	sig  string
+	spec *MsgSpec
+}{
+	{sigOpaqueSuffix, &MsgSpec{Name: "M", Fields: []FieldSpec{F("_foo", 1, -1), F("x_foo", 2, -1), F("XFoo_2", 3, -1)}}},
+	{sigWrapper, &MsgSpec{Name: "M", Fields: []FieldSpec{F("a", 1, 0), F("a_", 2, 0)}, Oneofs: []string{"o"}, Msgs: []string{"A"}}},
+	{sigOneofGetter, &MsgSpec{Name: "M", Fields: []FieldSpec{F("get_x", 1, -1), F("a", 2, 0)}, Oneofs: []string{"x"}}},
+	{sigOneofRelease, &MsgSpec{Name: "M", Fields: []FieldSpec{F("a", 1, 0), F("b", 2, 1), F("GetX", 3, -1)}, Oneofs: []string{"get_x", "x"}}},
+	{sigOneofRelease, &MsgSpec{Name: "M", Fields: []FieldSpec{F("GetGetX", 1, -1), F("a", 2, 0), F("b", 3, 1), F("c", 4, 2), F("d", 5, 3), F("get_get_x", 6, -1)},
+		Oneofs: []string{"get_x", "getGetX", "x", "GetX"}}},
+	{sigOneofCamel, &MsgSpec{Name: "M", Fields: []FieldSpec{F("a", 1, 0), F("fooBar", 2, -1)}, Oneofs: []string{"foo_bar"}}},
+	{sigProtoReflect, &MsgSpec{Name: "M", Fields: []FieldSpec{F("proto_reflect", 1, -1)}}},
+}
+
+func runMessages(c *vh.Ctx) {
+	for _, w := range witnesses {
+		res := evalMsg(c, w.spec, false)
+		_, ok := res.known[w.sig]
+		c.Check(!res.rejected && ok, "witness of known finding "+w.sig+" no longer collides (code repaired? update model, Props/C42 and known-findings.txt)",
+			Input{Kind: "msg", Spec: w.spec, Line: w.spec.line()}, "")
+		checkMsg(c, w.spec, "witness")
 	}
-	for _, m := range specs {
-		n, err := m.resolve()
-		if err != nil {
-			fmt.Println("ERR", m.line(), err)
-			continue
+	// reserved method names, one field each: the Go name must be moved out of the way
+	for _, n := range []string{"reset", "string", "proto_message", "marshal", "unmarshal", "extension_range_array", "extension_map", "descriptor"} {
+		checkMsg(c, &MsgSpec{Name: "M", Fields: []FieldSpec{F(n, 1, -1)}}, "reserved")
+		checkMsg(c, &MsgSpec{Name: "M", Fields: []FieldSpec{F("get_"+n, 1, -1), F(n, 2, -1)}}, "reserved")
+	}
+	// exhaustive: ordered selections from the small pool, no oneofs (the unconditional open-API theorem)
+	k := 2
+	if c.Thorough() {
+		k = 3
+	}
+	var sel []int
+	var rec func()
+	rec = func() {
+		if len(sel) >= 2 && !c.Failed() {
+			m := &MsgSpec{Name: "M"}
+			for i, s := range sel {
+				m.Fields = append(m.Fields, F(smallPool[s], i+1, -1))
+			}
+			checkMsg(c, m, "exhaustive-small-pool")
 		}
-		fmt.Println(m.line(), "=>", n.canon())
-		for _, lv := range []string{"API_OPEN", "API_OPAQUE"} {
-			d, _, err := m.generate(lv)
-			for _, x := range d {
-				fmt.Println("   ", x, classify(m, n, x), err)
+		if len(sel) == k {
+			return
+		}
+		for i := range smallPool {
+			dup := false
+			for _, s := range sel {
+				dup = dup || s == i
+			}
+			if !dup {
+				sel = append(sel, i)
+				rec()
+				sel = sel[:len(sel)-1]
 			}
 		}
+	}
+	rec()
+	for i, n := 0, c.N(2500, 60000); i < n && !c.Failed(); i++ {
+		checkMsg(c, genSpec(c), "random")
 	}
 }
